@@ -14,6 +14,37 @@ def tab(f):
     return {str(k): str(v) for k, v in f.items()}
 
 
+def shapes(ctx):
+    """fidelity clause: Shapes.tla enumerates callables built from the supported kinds and predicts what calling them returns"""
+    tlc.sany(ctx.work, "MC_Shapes")
+    res = tlc.check(ctx.work, "MC_Shapes", "MC_Shapes_quick.cfg", workers=4, timeout=900, coverage=False)
+    ctx.add_tlc(res, "Shapes.tla")
+    if res.violation:
+        raise runner.Machinery("Shapes.tla: %s" % (res.violation,))
+    vecs = [json.loads(json.loads(l)) for l in res.out.splitlines() if l.startswith('"[\\"SHAPE')]
+    if not vecs:
+        raise runner.Machinery("Shapes.tla emitted no vector")
+    vf, of = os.path.join(ctx.work, "shapes.jsonl"), os.path.join(ctx.work, "shapes_out.json")
+    with open(vf, "w") as fh:
+        for v in vecs:
+            fh.write(json.dumps(v) + "\n")
+    rc, out = runner.run_child([runner.PY, os.path.join(runner.ROOT, "engine/pure/shapes_child.py"), vf, of], timeout=900)
+    if rc != 0 or not os.path.exists(of):
+        raise runner.Machinery("shapes_child failed: %s" % out[-1000:])
+    r = json.load(open(of))
+    if r["n"] != len(vecs):
+        raise runner.Machinery("shapes_child processed %d of %d" % (r["n"], len(vecs)))
+    for v in vecs:
+        ctx.case(key="shape:" + json.dumps(v[1:5]), nontrivial=len(v[2]) >= 1)
+    ctx.traces_validated += len(vecs) - len(r["out"])
+    ctx.extra["shape_vectors"] = len(vecs)
+    for m in r["out"][:3]:
+        v = m["vector"]
+        ctx.violation("C15 fidelity: %s wrapped in partial layers %s, called with %s %s, after a round trip under the %s back-end gives %s; "
+                      "the original gives %s and the property requires %s" % (v[1], v[2], v[3], v[4], m["backend"], m["got"], m["original"], m["want"]),
+                      dict(engine="E-PURE", vector=v, detail=m, how="engine/pure/shapes_child.py"), signature=dict(kind="shape_roundtrip"))
+
+
 def run(ctx):
     tlc.stage(ctx.work)
     tlc.sany(ctx.work, "MC_Pickling")
@@ -124,6 +155,7 @@ def run(ctx):
                         "fidelity of the built-in reducers (bound methods, partial, ...) is covered by c15_fidelity (differential, exploration-grade)"]
     from checks import c15_tasks
     c15_tasks.run(ctx, at_dispatch)
+    shapes(ctx)
 
 
 if __name__ == "__main__":
